@@ -409,5 +409,7 @@ func main() {
 		"DMQ-NtC": protocol.GetProtocolVersionsDMQNtC(), "DMQ-NtN": protocol.GetProtocolVersionsDMQNtN()})
 	c.Set("rule", "every entry of the 4 version lists x every magic of the alphabet x all 8 (diffusion,peerSharing,query) combinations; per case: encode (repo) -> own decoder of that version == generated entry; generated entry == requested values on the fields the version's CDDL shape carries; own CBOR reader finds the same values in the wire bytes; own CBOR writer -> that version's decoder yields the same values. Lists: family bit + strictly ascending + stable; eras: prefix of Shelley..Dijkstra and non-shrinking along each list; all 65536 version numbers: configured iff listed. distinct = (table,version,magic,flags)")
 	c.Assume("the handshake CDDL version-data shapes in the header comment are transcribed from the network specification")
+	// free-running -race pass: concurrent callers on their own inputs (state the library shares between calls)
+	c.RaceAudit("c20")
 	c.Finish()
 }
